@@ -427,9 +427,14 @@ func (c *RetryClient) Resubscribe(ctx context.Context) {
 		c.subEstablished = nil
 
 		if len(oldSubEstablished) > 0 {
+			// Established subscriptions were requested before any of the queued
+			// requests; restore them first to keep the order of the requests.
+			oldRetryQueue := c.retryQueue
+			c.retryQueue = nil
 			for _, sub := range oldSubEstablished {
 				c.subscribe(ctx, true, cli, sub)
 			}
+			c.retryQueue = append(c.retryQueue, oldRetryQueue...)
 		}
 	})
 }
